@@ -14,7 +14,10 @@ def gen(tier, seed):
     cases = []
     for _ in range(400 if tier == "quick" else 8000):
         text = textgen.rand_text(rng, max_lines=8)
-        n = len(text)
+        if rng.random() < 0.15:
+            text = textgen.BOM + text          # a file saved with a byte-order mark: not part of what the compiler numbers
+        seen = textgen.strip_bom(text)
+        n = len(seen)
         if n == 0:
             continue
         k = rng.randint(2, 6)
@@ -24,7 +27,7 @@ def gen(tier, seed):
             if r < 0.8:
                 i = rng.randrange(0, n)
                 j = rng.randint(i + 1, min(n, i + 5)) if i + 1 <= n else i
-                quads.append((list(textgen.linecol(text, i)) + list(textgen.linecol(text, j)), i, j))
+                quads.append((list(textgen.linecol(seen, i)) + list(textgen.linecol(seen, j)), i, j))
             elif r < 0.9 and quads:
                 quads.append(quads[rng.randrange(len(quads))])          # two entries on one sub-pattern
             else:
@@ -66,11 +69,11 @@ def oracle_c04(line, impl):
     for k, ((s, e), (i, j)) in enumerate(zip(sp, truth)):
         if i is None or not (i < j):
             continue
-        ws, we = textgen.prefix_bytes(text, i), textgen.prefix_bytes(text, j)
+        ws, we = textgen.file_offset(text, i), textgen.file_offset(text, j)
         if (s, e) != (ws, we):
             return ("entry %d of %d (written at characters %d..%d = bytes %d..%d, recorded as line/col %s) is marked at bytes %d..%d: `%s` instead of `%s`"
                     % (k + 1, len(quads), i, j, ws, we, quads[k], s, e,
-                       text.encode("utf-8")[s:e].decode("utf-8", "replace"), text[i:j]))
+                       text.encode("utf-8")[s:e].decode("utf-8", "replace"), textgen.strip_bom(text)[i:j]))
     return None
 
 
